@@ -16,6 +16,7 @@ struct Shard {
     restarts: usize,
     done: bool,
     gave_up: bool,
+    why: String,
 }
 
 #[derive(Clone, Debug)]
@@ -69,6 +70,22 @@ fn spawn_worker(
         .stdout(Stdio::from(log.try_clone().unwrap()))
         .stderr(Stdio::from(log));
     cmd.spawn().expect("spawn worker")
+}
+
+/// where a shard's last written checkpoint says to go on (used when a worker went away without a
+/// usable in-flight record)
+fn last_checkpoint(dir: &Path, shard: usize, upto_segment: usize) -> Option<(usize, u64)> {
+    for seg in (0..=upto_segment).rev() {
+        let p = dir.join(format!("shard-{shard}.seg{seg}.json"));
+        if let Some(v) = std::fs::read_to_string(&p).ok().and_then(|t| serde_json::from_str::<Value>(&t).ok()) {
+            if let Some(n) = v.get("next").and_then(|n| n.as_array()) {
+                if n.len() == 2 {
+                    return Some((n[0].as_u64()? as usize, n[1].as_u64()?));
+                }
+            }
+        }
+    }
+    None
 }
 
 fn section_names(prop: &dyn Prop, tier: Tier) -> Vec<String> {
@@ -151,6 +168,7 @@ pub fn run_property(prop: &'static dyn Prop, tier: Tier, seed: u64, root: &Path)
             restarts: 0,
             done: false,
             gave_up: false,
+            why: String::new(),
         })
         .collect();
     let mut incidents: Vec<Incident> = vec![];
@@ -191,10 +209,15 @@ pub fn run_property(prop: &'static dyn Prop, tier: Tier, seed: u64, root: &Path)
                                 status: format!("{status} (between cases)"),
                                 phase: 0,
                             });
-                            sh.gave_up = true;
+                            sh.why = "worker ended between cases without finishing".to_string();
+                    sh.gave_up = true;
                             continue;
                         }
+                    } else if let Some(cp) = last_checkpoint(&dir, sh.idx, sh.segment) {
+                        // no usable in-flight record: go on from the shard's last checkpoint
+                        restart_from = Some(cp);
                     } else {
+                        sh.why = "no in-flight record and no checkpoint after a crash".to_string();
                         sh.gave_up = true;
                         incidents.push(Incident {
                             kind: "crash",
@@ -221,7 +244,10 @@ pub fn run_property(prop: &'static dyn Prop, tier: Tier, seed: u64, root: &Path)
                                 if let Some(cur) = read_cur(&curp) {
                                     incidents.push(incident_from(&cur, &names, "timeout", format!(">{timeout_s}s")));
                                     restart_from = Some((cur.sec as usize, cur.k + 1));
+                                } else if let Some(cp) = last_checkpoint(&dir, sh.idx, sh.segment) {
+                                    restart_from = Some(cp);
                                 } else {
+                                    sh.why = "no in-flight record and no checkpoint after a watchdog kill".to_string();
                                     sh.gave_up = true;
                                     continue;
                                 }
@@ -230,13 +256,19 @@ pub fn run_property(prop: &'static dyn Prop, tier: Tier, seed: u64, root: &Path)
                     }
                 }
                 Err(_) => {
-                    sh.gave_up = true;
-                    continue;
+                    if let Some(cp) = last_checkpoint(&dir, sh.idx, sh.segment) {
+                        restart_from = Some(cp);
+                    } else {
+                        sh.why = "cannot wait for the worker and no checkpoint".to_string();
+                        sh.gave_up = true;
+                        continue;
+                    }
                 }
             }
             if let Some(rf) = restart_from {
                 sh.restarts += 1;
                 if sh.restarts > 400 {
+                    sh.why = "more than 400 restarts".to_string();
                     sh.gave_up = true;
                     continue;
                 }
@@ -266,7 +298,7 @@ pub fn run_property(prop: &'static dyn Prop, tier: Tier, seed: u64, root: &Path)
     let mut infra: Vec<String> = vec![];
     for sh in shards.iter() {
         if sh.gave_up {
-            infra.push(format!("shard {} gave up after {} restarts", sh.idx, sh.restarts));
+            infra.push(format!("shard {} gave up after {} restarts ({})", sh.idx, sh.restarts, sh.why));
         }
         for seg in 0..=sh.segment {
             let base = dir.join(format!("shard-{}.seg{}", sh.idx, seg));
